@@ -59,7 +59,9 @@ PROPS = {
     "C03": {"jobs": [J("lr.std", "wl_lr", 200000, 6000000, mode="std"),
                      # the statement quantifies over the memory-model behaviours of the atomics:
                      # an unordered reader/writer pair on the payload is a C03 violation too
-                     J("lr.mm", "wl_lr", 100000, 3000000, mode="std", races=1)]},
+                     J("lr.mm", "wl_lr", 100000, 3000000, mode="std", races=1),
+                     # slow-node fault: a reader parked inside lock_shared while writers run
+                     J("lr.rstall", "wl_lr", 100000, 3000000, mode="rstall")]},
     "C04": {"jobs": [J("cow.std", "wl_cow", 150000, 4000000, mode="std")]},
     "C05": {"jobs": [J("rcu.std", "wl_rcu", 120000, 3000000, mode="std", elem=0),
                      J("rcu.std.string", "wl_rcu", 40000, 1000000, mode="std", elem=1),
@@ -79,6 +81,9 @@ PROPS = {
                      J("rcu.c13.blob", "wl_rcu", 40000, 1000000, mode="c13", elem=2)]},
     "C14": {"jobs": [J("lr.freeze", "wl_lr", 60000, 1500000, mode="freeze"),
                      J("lr.overlap", "wl_lr", 20000, 500000, mode="overlap"),
+                     # writers must complete once handles are released: mixed readers (all
+                     # acquisition forms) and writers; a writer left spinning is no_progress
+                     J("lr.live", "wl_lr", 100000, 3000000, mode="std"),
                      J("rcu.freeze", "wl_rcu", 60000, 1500000, mode="freeze", elem=0),
                      J("cow.freeze", "wl_cow", 60000, 1500000, mode="freeze")]},
     "C16": {"jobs": [J("dd.locked", "wl_dd", 150000, 4000000, single=0),
